@@ -49,6 +49,13 @@ def normalize(c, obs):
         if o["op"] == "add" and o.get("route") in SCRIPT_ROUTES and s["r"] == 1 and s["look"] == prev["look"]:
             dropped += 1
             continue
+        # TempVM.LoadPkg does not consult the spl autoload callbacks (GetOrLoadClass / GetOrLoadInterface and the base's
+        # LoadPkg do): a LoadPkg on a TempVM of a callback-only name that finds nothing and changes no lookup on any VM
+        # is removed as well; one that finds the class, or changes anything, is compared as OLoadPkg on that TempVM
+        if o["op"] == "pkg" and o["vm"] >= 0 and o["name"] in (c.get("callbacks") or []) and s["look"] == prev["look"] and \
+                (s["r"] == 1 or (s["r"] == 0 and s["d"] == -1)):
+            dropped += 1
+            continue
         ops2.append(o)
         steps2.append(s)
         prev = s
@@ -184,6 +191,10 @@ def coq_case(c, obs, pt, pobs):
             e = c["cp"][idx]
             defs = coq_list("(%s, %s)" % ("true" if b else "false", coq_string(n)) for b, n in CPDEFS[e["kind"]](e["name"]))
             cpl.append("(%s, {| cfile := %d; cdefs := %s |})" % (coq_string(nm), 1000 + idx, defs))
+    # a class provided by an spl autoload callback is, for the model, a class-path entry: asking for the name loads the
+    # "file" 2000+k, which declares exactly that class, on the VM that asked
+    for k, nm in enumerate(c.get("callbacks") or []):
+        cpl.append("(%s, {| cfile := %d; cdefs := [(true, %s)] |})" % (coq_string(nm), 2000 + k, coq_string(nm)))
     pur = "None" if pobs is None else "(Some (%d%%nat, %s))" % (pt, coq_steps(c, pobs["steps"]))
     return ("{| c_cp := %s; c_names := %s; c_consts := %s; c_files := %s; c_ops := %s; c_obs := %s; c_purge := %s |}" % (
         coq_list(cpl), coq_list(coq_string(n) for n in c["names"]), coq_list(coq_string(n) for n in c["consts"]),
@@ -196,8 +207,10 @@ def run_impl(binary, cases):
     return vworker.run_worker([binary], cases, per_case_timeout=60), 0, ""
 
 
-def mk(ops, names=LOOK, consts=CONSTS, shared=None, gc=False):
+def mk(ops, names=LOOK, consts=CONSTS, shared=None, gc=False, callbacks=None):
     c = {"names": names, "consts": consts, "cp": CP, "ops": ops}
+    if callbacks:
+        c["callbacks"] = callbacks
     if shared:
         c["shared"] = shared
         c["scripts"] = True
@@ -503,6 +516,41 @@ def main(ck):
                     ops += [{"op": "req_begin"}] + ([{"op": "add", "vm": t, "kind": "c", "name": "Theme", "file": 0, "route": "parse"}] if t != 1 else []) + \
                            [{"op": use, "vm": t, "name": "Theme"}, {"op": "req_end"}]
                 cases.append((mk(fresh(ops), names=SHNAMES, consts=["K"], shared=["Theme", "Tint"], gc=True), 0))
+        # classes that only an spl autoload callback provides (composer classmap / legacy autoloader; seeded change C12-10:
+        # TempVM.LoadPkg calling the callbacks on a context bound to the BASE VM): every lookup route on every VM
+        CBNAMES = ["Legacy", "LegacyB", "A", "App\\P"]
+
+        def cb_alpha(vms):
+            a = []
+            for v in [-1] + list(vms):
+                for n in ("Legacy", "LegacyB"):
+                    a += [{"op": "pkg", "vm": v, "name": n}, {"op": "goc", "vm": v, "name": n}, {"op": "pkg", "vm": v, "name": n}]
+                a += [{"op": "goi", "vm": v, "name": "Legacy"}, {"op": "cexists", "vm": v, "name": "Legacy"}, {"op": "new", "vm": v, "name": "LegacyB"},
+                      {"op": "pkg", "vm": v, "name": "App\\P"}, {"op": "add", "vm": v, "kind": "c", "name": "Legacy", "file": 0, "route": "parse"}]
+            return a
+        cal = cb_alpha((0, 1))
+        for a in cal:
+            for b in cal:
+                if ck.tier == "quick" and rng.random() > 0.3:
+                    continue          # quick: a seeded third of the ordered pairs
+                ops = fresh(pre + [a, b])
+                t = rng.choice([0, 1])
+                cases.append((mk(ops, names=CBNAMES, consts=["K"], callbacks=["Legacy", "LegacyB"]), t if any(scoped_to(t, o) for o in ops) else None))
+        for _ in range(200 if ck.tier == "quick" else 4000):
+            cal3 = cb_alpha((0, 1, 2))
+            ops = pre + [{"op": "newtemp"}] + [rng.choice(cal3) for _ in range(rng.randint(3, 9))]
+            if rng.random() < 0.3:
+                k = rng.randrange(3, len(ops))
+                ops[k:k] = [{"op": "discard", "t": rng.randrange(3)}, {"op": "newtemp"}, {"op": rng.choice(["pkg", "goc"]), "vm": 3, "name": "Legacy"}]
+            ops = fresh(ops)
+            t = rng.choice([0, 1, 2])
+            cases.append((mk(ops, names=CBNAMES, consts=["K"], callbacks=["Legacy", "LegacyB"]), t if any(scoped_to(t, o) for o in ops) else None))
+        for nreq in (2, 3):
+            for look in ("pkg", "goc"):
+                ops = []
+                for t in range(nreq):
+                    ops += [{"op": "req_begin"}, {"op": look, "vm": t, "name": "Legacy"}, {"op": "pkg", "vm": t, "name": "LegacyB"}, {"op": "req_end"}]
+                cases.append((mk(ops, names=CBNAMES, consts=["K"], callbacks=["Legacy", "LegacyB"]), 0))
         nrand = 400 if ck.tier == "quick" else 12000
         for _ in range(nrand):
             c = rand_case(rng, 40)
@@ -607,6 +655,55 @@ def main(ck):
                              "clause": "request k (own TempVM, class file rewritten before it) must see version k of App\\P: a definition resolved by an earlier request leaked through the shared handler AST"})
     ck.cov["hot_reload_cases"] = nhot
 
+    # ---- what a request declares THROUGH THE REQUEST MACHINERY stays in the request (seeded changes C12-11: shutdown
+    # callbacks registered in a request run on a base-VM context when the request ends; C12-12: methods of $r / $w run on
+    # frames bound to the base VM): a script handler served by the real HotHandler several times; the handler declares
+    # things only at run time -- directly, through $w->view() of a template with a text/zy script block, through a
+    # shutdown callback registered in the request, through included files.  After EVERY request (i.e. after ServeHTTP
+    # returned, deferred clean-up included) the base VM and a fresh TempVM resolve none of the probe names, and every
+    # request answers the same.
+    TPL = ('<!DOCTYPE html><html><head><script type="text/zy">\nfunction c12_tpl_helper($s) { return \'[\' . $s . \']\'; }\n'
+           'class C12TplBox { public $v = 7; }\n$label = c12_tpl_helper($name);\n$b = new C12TplBox();\n</script></head><body><p>{$label}</p><i>{$b->v}</i></body></html>')
+    TPLF = ('<!DOCTYPE html><html><head><script type="text/zy">\nfunction c12_tplf($s) { return \'(\' . $s . \')\'; }\n$x = c12_tplf($name);\n'
+            '</script></head><body><b>{$x}</b></body></html>')
+    DECL = "<?php\nclass C12SdBox { public $v = 4; }\ninterface C12SdI {}\nfunction c12sd_inc() { return 2; }\n"
+    req_bodies = {
+        "view-template(function+class)": ("$w->view('DIR/page.html', ['name' => 'bob']);", {"page.html": TPL}, ["c12_tpl_helper", "C12TplBox"]),
+        "view-template(function)": ("$w->view('DIR/f.html', ['name' => 'al']);", {"f.html": TPLF}, ["c12_tplf"]),
+        "view-twice-different-templates": ("$w->view('DIR/f.html', ['name' => 'al']); $w->view('DIR/page.html', ['name' => 'bob']);", {"f.html": TPLF, "page.html": TPL}, ["c12_tplf", "c12_tpl_helper", "C12TplBox"]),
+        "body-function+include": ("function c12body_helper() { return 5; }\ninclude 'DIR/decl.php';\n$o = new C12SdBox();\n$w->write(c12body_helper() + $o->v + c12sd_inc());", {"decl.php": DECL}, ["c12body_helper", "C12SdBox", "C12SdI", "c12sd_inc"]),
+        "shutdown-callback-declares-function": ("register_shutdown_function(function() { function c12sd_helper() { return 1; } });\n$w->write('ok');", {}, ["c12sd_helper"]),
+        "shutdown-callback-requires-file": ("register_shutdown_function(function() { require_once 'DIR/decl.php'; });\n$w->write('ok');", {"decl.php": DECL}, ["C12SdBox", "C12SdI", "c12sd_inc"]),
+        "shutdown-callback-autoloads": ("register_shutdown_function(function() { $o = new App\\P(); });\n$w->write('ok');", {}, ["App\\P"]),
+        "shutdown-callback-evals": ("register_shutdown_function(function() { if (1 == 1) { function c12sd_cond() { return 1; } } c12sd_cond(); });\n$w->write('ok');", {}, ["c12sd_cond"]),
+        "two-shutdown-callbacks": ("register_shutdown_function(function() { function c12sd_a() { return 1; } });\nregister_shutdown_function(function() { require_once 'DIR/decl.php'; });\n$w->write('ok');", {"decl.php": DECL}, ["c12sd_a", "C12SdBox", "c12sd_inc"]),
+        "view+shutdown": ("register_shutdown_function(function() { function c12sd_helper() { return 1; } });\n$w->view('DIR/f.html', ['name' => 'al']);", {"f.html": TPLF}, ["c12sd_helper", "c12_tplf"]),
+    }
+    nreqm = 0
+    if not ck.replay or json.load(open(ck.replay)).get("mode") == "request-machinery":
+        rcases = [{"hot": {"body": b, "requests": 3, "files": f, "probe": pr, "norewrite": kind != "shutdown-callback-autoloads"}, "_kind": kind} for kind, (b, f, pr) in sorted(req_bodies.items())]
+        if ck.replay:
+            rcases = [json.load(open(ck.replay))["case"]]
+        routs, _, _ = run_impl(binary, rcases)
+        for c, o in zip(rcases, routs):
+            nreqm += 1
+            kind = c.get("_kind", "?")
+            if "worker_death" in o:
+                ck.violation("worker-death:" + str(o["worker_death"].get("signature")), {"mode": "request-machinery", "case": c, "impl_out": o["worker_death"], "clause": "engine died"})
+                continue
+            steps = o.get("steps") or []
+            leaks = sorted(set(l for st in steps for l in (st.get("leak") or [])))
+            outs_ = [st.get("out") for st in steps]
+            if o.get("err") or len(steps) != c["hot"]["requests"]:
+                ck.violation("request-machinery:%s:engine" % kind, {"mode": "request-machinery", "case": c, "impl_out": o, "clause": "harness/implementation error"})
+            elif leaks:
+                ck.violation("request-machinery:%s:leak" % kind, {"mode": "request-machinery", "case": c, "impl_out": o,
+                             "clause": "discard_frame/temp_op_frame(impl): after a request served by HotHandler the base VM / a fresh TempVM resolves a name only the request declared: " + ", ".join(leaks)})
+            elif any(st.get("r") != 0 for st in steps) or len(set(outs_)) != 1 or not outs_[0]:
+                ck.violation("request-machinery:%s:requests-differ" % kind, {"mode": "request-machinery", "case": c, "impl_out": o,
+                             "clause": "every request (own TempVM) must succeed and answer the same: a later request failed or answered differently (a definition of an earlier request is in its way)"})
+    ck.cov["request_machinery_cases"] = nreqm
+
     # ---- coverage numbers (measured)
     dist, lens, routes = {}, {}, {}
     nontriv = 0
@@ -635,12 +732,12 @@ def main(ck):
             res[str(s["r"])] = res.get(str(s["r"]), 0) + 1
     ck.cov["op_kind_distribution"] = dist
     ck.cov["add_route_distribution"] = routes
-    ck.cov["script_statement_definitions_refused_without_effect(removed before the model comparison)"] = ndropped
+    ck.cov["ops_refused_without_effect(eval-route definitions on a TempVM, LoadPkg of callback-only names on a TempVM; removed before the model comparison)"] = ndropped
     ck.cov["length_distribution_by_5"] = lens
     ck.cov["impl_result_codes(0 ok,1 throw,2 panic,3 dead vm)"] = res
     ck.cov["histories_with_purged_twin"] = sum(1 for _, t in cases if t is not None)
     ck.cov["exhaustive_len"] = 3 if ck.tier == "quick" else 4
     ck.samples = [cases[len(cases) // 2][0], cases[-1][0]] if cases else []
     ck.finish(level="proof", evaluations=len(order), distinct_nontrivial=nontriv,
-              rule="histories over 1 base + <=4 TempVMs: all sequences up to the stated length over a 12-op alphabet after two NewTempVM (plus a seeded sample of length 4 in the quick tier), seeded random histories of length 1..40 over an 8-name pool with case/backslash variants, same-file re-declarations, direct and parse-time registration, autoload files; definitions made by script statements (eval / include / require_once / inside a function body / inside a conditional) for every route x kind x VM with 7 tails, namespaced code with short class names (all ordered pairs of a 21-op alphabet with and without a global Widget on the base + seeded random histories over three TempVMs + HotHandler requests); each with the history purged of one TempVM's operations; non-trivial = distinct history with operations on at least two VMs one of which is a TempVM",
+              rule="histories over 1 base + <=4 TempVMs: all sequences up to the stated length over a 12-op alphabet after two NewTempVM (plus a seeded sample of length 4 in the quick tier), seeded random histories of length 1..40 over an 8-name pool with case/backslash variants, same-file re-declarations, direct and parse-time registration, autoload files; definitions made by script statements (eval / include / require_once / inside a function body / inside a conditional) for every route x kind x VM with 7 tails, namespaced code with short class names (all ordered pairs of a 21-op alphabet with and without a global Widget on the base + seeded random histories over three TempVMs + HotHandler requests); code defined on the base whose class names resolve per VM (shared function body / base class extending a per-VM parent, incl. garbage-collected TempVMs), classes provided only by spl autoload callbacks (a third of the ordered pairs of a 33-op alphabet + random + requests); each with the history purged of one TempVM's operations; plus, evaluated on the implementation only, 4 hot-reload bodies and 10 request-machinery bodies served 3 times by the real HotHandler; non-trivial = distinct history with operations on at least two VMs one of which is a TempVM",
               traces=len(terms))
